@@ -71,7 +71,10 @@ fn main() {
             // documented scope: no redundant slot anywhere
             let redundant = (0..uni.terms.len()).any(|ti| spec.lab[pool_ui[ti]] != 0 && spec.slots[ti].len() < uni.terms[ti].fv().len());
             if redundant { counts.lock().unwrap()[1] += 1; continue; }
-            for variant in 0..4 {
+            // variants 4..: like 3 (unions first, instances planted afterwards) with a different number of
+            // fresh slots drawn beforehand: the internal slot numbers, and with them every hash-ordered
+            // iteration inside the library, differ from run to run
+            for variant in 0..10 {
                 tick(&format!("{} state {:?} variant {}", uni.name, spec.key, variant));
                 let (uni2, spec2, pool_ui2) = (uni.clone(), spec.clone(), pool_ui.clone());
                 let kind = NAMINGS[(si + variant) % NAMINGS.len()];
@@ -83,8 +86,9 @@ fn main() {
                         let mut base = uni2.base.clone();
                         if variant % 2 == 1 { base.reverse(); }
                         let mut key = spec2.key.clone();
-                        if variant >= 2 { key.reverse(); }
-                        let unions_first = variant == 3;
+                        if variant == 2 || variant == 3 || variant % 2 == 0 && variant > 3 { key.reverse(); }
+                        let unions_first = variant >= 3;
+                        for _ in 0..(if variant > 3 { [1, 2, 3, 5, 8, 13][variant - 4] } else { 0 }) { let _ = Slot::fresh(); }
                         if !unions_first { for b in &base { eg.add_expr(ex(*b)); } }
                         for e in &key {
                             let (a, b) = uni2.eqs[*e - 1];
